@@ -149,6 +149,7 @@ def main(argv: List[str]) -> int:
         jobs.append((pl, "default", None, "0", "after-other-model"))
         jobs.append((pl, "default", None, "0", "stale-files"))
         jobs.append((pl, "default", None, "0", "stale-crlf"))
+        jobs.append((pl, "default", None, "0", "ascii-locale"))
         jobs.append((pl, "default", None, "0", "in-process-after-other-model"))
         jobs.append((pl, "default", None, "0", "in-process-after-failed-run"))
 
@@ -205,7 +206,7 @@ def main(argv: List[str]) -> int:
             # an owned name with different (truncated) content
             for p in sorted(owned)[:3]:
                 open(os.path.join(out, p), "w").write("")
-        rc, log, dt = gen.run_plugin(pl, out, models=models, hashseed=sd)
+        rc, log, dt = gen.run_plugin(pl, out, models=models, hashseed=sd, ascii_locale=hist == "ascii-locale")
         dig = gen.tree_digest(out)
         # files the plugin owns: one fixed name for python / rust, every *.cs / *.json for dotnet / testdata
         owned_pat = {"python": lambda p: p.endswith("types.py"), "rust": lambda p: p.endswith("lib.rs"), "dotnet": lambda p: p.endswith(".cs"), "testdata": lambda p: p.endswith(".json")}[pl]
@@ -226,6 +227,9 @@ def main(argv: List[str]) -> int:
     dyn_findings: List[str] = []
     for (pl, mname, models, sd, hist), rc, dig, log in results:
         dyn += 1
+        if rc != 0 and hist == "ascii-locale":
+            run.violation(f"determinism:{pl}:ascii-locale:{mname}", f"{pl} plugin fails (exit {rc}) in a process whose default text encoding is ASCII (LC_ALL=C, PYTHONUTF8=0), while it succeeds under UTF-8: {log.strip().splitlines()[-1][:200] if log.strip() else ''}", {"plugin": pl, "history": hist, "environment": gen.ASCII_LOCALE_ENV, "log": log[-600:], "replay": f"LC_ALL=C PYTHONUTF8=0 PYTHONCOERCECLOCALE=0 python -m generator --plugin {pl} --output-dir <scratch>"}, True)
+            continue
         if rc != 0:
             run.crash(f"plugin {pl} exits {rc} ({mname}, seed {sd}, {hist}): {log[-200:]}")
             continue
@@ -244,7 +248,7 @@ def main(argv: List[str]) -> int:
         )
     run.assume(
         "the qualifier system is conservative: set displays/calls, set algebra on dict views, glob/listdir results are Unordered; id_/uuid values are Opaque; sorted/len/min/max/any/all/membership are order-insensitive consumers; per-element file operations on element-derived targets are order-insensitive; dict iteration is insertion-ordered",
-        "hash seeds and histories are explored only on the stated finite set (bounded): 3 (quick) / 6 (thorough) seeds x {fresh, re-run, after a different model, planted stale files, owned files with CRLF line endings, in the same interpreter after an evolved model, in the same interpreter after a failed run} x {committed model, committed model + extension file}",
+        "hash seeds and histories are explored only on the stated finite set (bounded): 3 (quick) / 6 (thorough) seeds x {fresh, re-run, after a different model, planted stale files, owned files with CRLF line endings, a process whose default text encoding is ASCII, in the same interpreter after an evolved model, in the same interpreter after a failed run} x {committed model, committed model + extension file}",
         "the FS frame is a structural obligation on generate_from_spec/cleanup (cleanup before writes, unconditional, glob covers the owned extension, writes independent of prior directory contents)",
     )
     static_ob = nq + nf
